@@ -55,7 +55,7 @@ claim("C05", "stmt_space",
       "symbols in data lists are a recorded finding (KF-C05-1)", "DESIGN.md 6 C05")
 claim("C12", "stmt_space",
       "exhaustive enumeration of operand text (all token strings up to length 3-5 over a 17-token alphabet, plus every form with "
-      "out-of-range values / wrong registers / absent modes) on the real assembler, decoded by the independent decoder",
+      "out-of-range values / wrong registers / absent modes; symbol-using texts in a program at $2000 and in the zero page) on the real assembler, decoded by the independent decoder",
       "Whatever the assembler accepts must decode as exactly one instruction of that mnemonic whose length equals the space the listing "
       "reserves; texts that the documented grammar classifies as value-out-of-range, wrong-register or absent-mode must be rejected.",
       "trusts the decoder and the operand grammar of DESIGN.md appendix D (mc/ref/m6809.py parse_operand)", "DESIGN.md 6 C12")
@@ -106,7 +106,7 @@ claim("C11", "cli_bfs",
       "name = NAM else --name (upper-cased, 8 chars); no name => no container file.",
       "the image itself is tied to the source by C01-C05", "DESIGN.md 6 C11")
 claim("C14", "container_bfs",
-      "strict independent tape parser evaluated on every buffer produced by the write side of C06",
+      "strict independent tape parser evaluated on every buffer produced by the write side of C06, by appending, and by file_util --to_cas from disk images of the independent writer",
       "Every block framed 55 3C type len payload cksum 55 with the right checksum and length; name-file block of 15 bytes; data blocks 1..255; "
       "EOF block; nothing but 00/55 between blocks.",
       "trusts mc/ref/tape.py parse()", "DESIGN.md 6 C14")
